@@ -6,7 +6,17 @@
 
 package casketfile
 
-//@ unit parser_chain props=C10,C11 filter=`parser\)\.(doImport|directive|directives|blockContents|addresses|snippetTokens)$|Dispenser\)\.(Next|NextArg|Val)$`
+//@ unit dispenser_api props=C10,C11 verify_pure=on nilchecks=on filter=`casketfile\.Dispenser\)\.(Next|NextArg|NextLine|nextOnSameLine|NextBlock|NextBlockNesting|Nesting|Val|Line|File|Args|RemainingArgs|ArgErr|SyntaxErr|EOFErr|Err|Errf|numLineBreaks|isNewLine|isNextOnNewLine)$`
+//@ // The token cursor API every directive setup is written against. Proved here, imported (`use`) by the setup sweeps.
+//@ // Safety needs no representation invariant; progress: every method leaves the cursor where it was or further on,
+//@ // and the advancing ones report true only after moving it forward (what the automatic loop variants rely on).
+//@ extern errors.New
+//@   ensures result != nil
+//@ extern fmt.Sprintf
+//@ extern strings.Count
+//@   pure
+//@ func isNextOnNewLine
+//@   pure
 //@ func (*Dispenser).Next
 //@   requires d != nil
 //@   modifies Dispenser.cursor
@@ -14,42 +24,94 @@ package casketfile
 //@   ensures [result] result == (d.cursor == old(d.cursor) + 1)
 //@   ensures [in_range] old(d.cursor) >= -1 ==> (result ==> (0 <= d.cursor && d.cursor < len(d.tokens)))
 //@   ensures [stuck] !result ==> old(d.cursor) >= len(d.tokens) - 1
-
 //@ func (*Dispenser).NextArg
 //@   requires d != nil
 //@   modifies Dispenser.cursor
 //@   ensures [step] d.cursor == old(d.cursor) || d.cursor == old(d.cursor) + 1
 //@   ensures [in_range] old(d.cursor) >= 0 ==> (result ==> (1 <= d.cursor && d.cursor < len(d.tokens)))
 //@   ensures [result] result == (d.cursor == old(d.cursor) + 1)
-
+//@   ensures [progress_bound] result ==> old(d.cursor) < len(d.tokens) - 1 || old(d.cursor) < 0
+//@ func (*Dispenser).NextLine
+//@   requires d != nil
+//@   modifies Dispenser.cursor
+//@   ensures [step] d.cursor == old(d.cursor) || d.cursor == old(d.cursor) + 1
+//@   ensures [result] result == (d.cursor == old(d.cursor) + 1)
+//@   ensures [progress_bound] result ==> old(d.cursor) < len(d.tokens) - 1 || old(d.cursor) < 0
+//@ func (*Dispenser).nextOnSameLine
+//@   requires d != nil
+//@   modifies Dispenser.cursor
+//@   ensures [step] d.cursor == old(d.cursor) || d.cursor == old(d.cursor) + 1
+//@   ensures [result] result == (d.cursor == old(d.cursor) + 1)
+//@   ensures [progress_bound] result ==> old(d.cursor) < len(d.tokens) - 1 || old(d.cursor) < 0
+//@ func (*Dispenser).NextBlockNesting
+//@   requires d != nil
+//@   modifies Dispenser.cursor, Dispenser.nesting
+//@   ensures [monotone] d.cursor >= old(d.cursor)
+//@   ensures [progress] result ==> d.cursor >= old(d.cursor) + 1
+//@   ensures [progress_bound] result ==> old(d.cursor) < len(d.tokens) - 1 || old(d.cursor) < 0
+//@ func (*Dispenser).NextBlock
+//@   requires d != nil
+//@   modifies Dispenser.cursor, Dispenser.nesting
+//@   ensures [monotone] d.cursor >= old(d.cursor)
+//@   ensures [progress] result ==> d.cursor >= old(d.cursor) + 1
+//@   ensures [progress_bound] result ==> old(d.cursor) < len(d.tokens) - 1 || old(d.cursor) < 0
+//@ func (*Dispenser).Nesting
+//@   pure reads Dispenser
+//@   requires d != nil
 //@ func (*Dispenser).Val
 //@   pure reads Dispenser, E:github.com/tmpim/casket/casketfile.Token
+//@   requires d != nil
 //@   ensures (d.cursor < 0 || d.cursor >= len(d.tokens)) ==> result == ""
+//@ func (*Dispenser).Line
+//@   pure reads Dispenser, E:github.com/tmpim/casket/casketfile.Token
+//@   requires d != nil
+//@ func (*Dispenser).File
+//@   pure reads Dispenser, E:github.com/tmpim/casket/casketfile.Token
+//@   requires d != nil
+//@ func (*Dispenser).numLineBreaks
+//@   pure reads Dispenser, E:github.com/tmpim/casket/casketfile.Token
+//@   requires d != nil
 //@ func (*Dispenser).isNewLine
-//@   pure reads Dispenser
+//@   pure reads Dispenser, E:github.com/tmpim/casket/casketfile.Token
+//@   requires d != nil
+//@ func (*Dispenser).isNextOnNewLine
+//@   pure reads Dispenser, E:github.com/tmpim/casket/casketfile.Token
+//@   requires d != nil
+//@ func (*Dispenser).Args
+//@   requires d != nil && forall(k, 0, len(targets), targets[k] != nil)
+//@   modifies Dispenser.cursor, ptr:string
+//@   ensures [monotone] d.cursor >= old(d.cursor)
+//@   loop 1 invariant 0 <= i && i <= len(targets) && d.cursor >= old(d.cursor)
+//@   loop 1 decreases len(targets) - i
+//@ func (*Dispenser).RemainingArgs
+//@   requires d != nil
+//@   modifies Dispenser.cursor
+//@   ensures [monotone] d.cursor >= old(d.cursor)
+//@   loop 1 invariant d.cursor >= old(d.cursor)
+//@ func (*Dispenser).Err
+//@   requires d != nil
+//@   ensures result != nil
+//@ func (*Dispenser).Errf
+//@   requires d != nil
+//@   ensures result != nil
+//@ func (*Dispenser).ArgErr
+//@   requires d != nil
+//@   ensures result != nil
+//@ func (*Dispenser).EOFErr
+//@   requires d != nil
+//@   ensures result != nil
+//@ func (*Dispenser).SyntaxErr
+//@   requires d != nil
+//@   ensures result != nil
+
+//@ unit parser_chain props=C10,C11 filter=`parser\)\.(doImport|directive|directives|blockContents|addresses|snippetTokens)$`
+//@ use casketfile/contracts_verif.go:dispenser_api
 
 //@ func (*parser).snippetTokens
 //@   requires p != nil && p.cursor >= -1
 //@   modifies Dispenser.cursor
 //@   loop 1 invariant p.cursor >= -1
 
-//@ func (*Dispenser).File
-//@   pure reads Dispenser
-//@ func (*Dispenser).Err
-//@   pure reads Dispenser
-//@   ensures result != nil
-//@ func (*Dispenser).Errf
-//@   pure reads Dispenser
-//@   ensures result != nil
-//@ func (*Dispenser).ArgErr
-//@   pure reads Dispenser
-//@   ensures result != nil
-//@ func (*Dispenser).EOFErr
-//@   pure reads Dispenser
-//@   ensures result != nil
-//@ func (*Dispenser).SyntaxErr
-//@   pure reads Dispenser
-//@   ensures result != nil
 //@ func replaceEnvVars
 //@   pure
 //@   ensures s == "" ==> result == ""
